@@ -31,7 +31,7 @@ import (
 // in the middle of the write).
 
 var sfPrimary = []string{"absent", "healthy", "failing", "peer-closed"}
-var sfSecondary = []string{"absent", "fresh", "stale", "refusing", "reset1", "reset-always"}
+var sfSecondary = []string{"absent", "fresh", "stale", "refusing", "reset1", "reset-always", "refusing-then-up"}
 var sfBackend = []string{"none", "healthy", "stale", "failing"}
 var sfBackendDst = []string{"accepting", "refusing", "reset1", "reset-always"}
 
@@ -169,7 +169,7 @@ func execSendFaults(t *testing.T, p *Plan) *Result {
 				pr, se := op.S["primary"], op.S["secondary"]
 				// destination listener (the reconnectable path)
 				var dl *simnet.TCPListener
-				if se != "refusing" && se != "absent" {
+				if se != "refusing" && se != "absent" && se != "refusing-then-up" {
 					dl = n.ActorListen(dstIP, 5060, func(end *simnet.TCPEnd) { w.attachRecorder(end, dst) })
 				}
 				switch se {
@@ -241,6 +241,12 @@ func execSendFaults(t *testing.T, p *Plan) *Result {
 					for k := range msgs {
 						err := trans.Send(msgs[k])
 						res.errs = append(res.errs, err != nil)
+						if k == 0 && se == "refusing-then-up" {
+							// the destination comes up after the first message was refused
+							gate.Open = false
+							phase = 3
+							gate.Wait()
+						}
 					}
 					res.done = true
 				})
@@ -264,6 +270,9 @@ func execSendFaults(t *testing.T, p *Plan) *Result {
 						clientEnd.Close()
 						w.K.Settle(time.Second)
 					}
+					if phase == 3 && dl == nil {
+						dl = n.ActorListen(dstIP, 5060, func(end *simnet.TCPEnd) { w.attachRecorder(end, dst) })
+					}
 					gate.Open = true
 				}
 				w.K.Settle(time.Second)
@@ -276,7 +285,10 @@ func execSendFaults(t *testing.T, p *Plan) *Result {
 				}
 				judgeSends(w, v, op, sig, res, connFrom, dst, func(k int) (mustSucceed, mustFail bool) {
 					primaryUsable := pr == "healthy"
-					destOK := se == "fresh" || se == "stale" || se == "reset1"
+					destOK := se == "fresh" || se == "stale" || se == "reset1" || se == "refusing-then-up" && k > 0
+					if se == "refusing-then-up" && k == 0 && !primaryUsable {
+						return false, true
+					}
 					// once a fallback happened the working path is the reconnectable one
 					switch {
 					case primaryUsable:
